@@ -2005,6 +2005,10 @@ class AnsiStr(str):
         instance._s = ansi_string
         return instance
 
+    def __getnewargs__(self):
+        ''' copy and pickle rebuild from the internal AnsiString; re-parsing the str value may lose settings '''
+        return (self._s,)
+
     @property
     def base_str(self) -> str:
         ''' Returns the base string without any formatting set. '''
